@@ -139,6 +139,7 @@ def generate(rng: random.Random, tier: str) -> dict:
             params.append({"shape": shape, "dtype": dtype, "init_seed": rng.randrange(1 << 30), "init_scale": 1.0})
             mine.append(len(params) - 1)
         groups.append({"params": mine, "overrides": ov})
+    c06.mix_dtypes(rng, params, dtype)
     trace = {"schema": 1, "property": ID, "engine": "world", "config": config, "groups": groups, "params": params, "world": w, "schedule_seed": rng.randrange(1 << 30), "schedule": None}
     n_events = rng.choice([1, 2, 3, 4, 6, 8] + ([12, 16] if tier == "thorough" else []))
     style = gen.gen_presence_style(rng, len(params))
